@@ -44,6 +44,7 @@ def run(R):
     if fail:
         R.refutation = fail
     R.assumptions += [
+        'ghost views of table arrays (rule_from/rule_to/rule_month/era_until, reg_namekey/reg_zoneid/reg_zoneinfo) are DEFINED as the value stored at entry i of the unmodified table; instances of these definitions enter a proof only at the entry an accessor call touches (Contract.defs, assumed at call sites, never an obligation) -- a conservative definitional extension; the accessors themselves (rule(i), era(i), zoneInfo(i)) are verified for the address they return',
         'strcmp / strcmp_P / strcmp_PP (libc / stubs) are modelled by an order-embedding strkey of string contents into the integers; result in [-127,127] (7-bit ASCII names); strings and registry are not modified during a lookup',
         'the ghost registry views G/IDG/ZIG are definitional: their defining instances are added at each registry access',
         'ZoneManagerImpl is verified for the <2>-slot cache instantiations of both scopes (the template text is the same for every size)',
